@@ -49,16 +49,26 @@ func worldConfig(t *rapid.T) sim.Config {
 	return cfg
 }
 
+// shortDrain lets pending undelegations complete (10 blocks) and an epoch pass.
+func shortDrain(m *Machine) []Action {
+	out := []Action{}
+	for i := 0; i < 12; i++ {
+		out = append(out, Action{Kind: "nextBlock", Dt: 13})
+	}
+	return out
+}
+
 func init() {
 	registerWorldProp(&WorldProp{
 		ID: "C01",
 		Rule: "stateful rapid histories of the restaking world machine over the real app (deposit/withdraw/delegate/undelegate/associate/opt/slash/NST/native/blocks); " +
 			"non-trivial = history with a successful delegation, a successful undelegation, a completed undelegation and a value-removing slash or NST decrease; distinct = hash of the (kind, outcome) sequence",
-		Gen:        GenOpts{HostilePct: 12, ExtremePct: 3, MaxDt: 40},
+		Gen:        GenOpts{HostilePct: 12, ExtremePct: 3, MaxDt: 40, Anchor: true, Tempos: []int{4, 12, 40}},
 		MinSteps:   15,
 		MaxSteps:   60,
 		Config:     worldConfig,
 		Invariants: func() []Invariant { return []Invariant{&ledgerInv{}} },
+		Tail:       shortDrain,
 		NonTrivial: func(m *Machine, invs []Invariant) (bool, []string) {
 			return invs[0].(*ledgerInv).NonTrivial(), nil
 		},
